@@ -187,6 +187,13 @@ def _worker_init():
 
 
 def _worker_call(args):
+    try:
+        return _worker_call_inner(args)
+    except CaseTimeout:   # the watchdog fired while an exception handler was running
+        return ('timeout', {'site': None, 'stack': [], 'functions': []})
+
+
+def _worker_call_inner(args):
     fn_mod, fn_name, case, limit = args
     import importlib
     fn = getattr(importlib.import_module(fn_mod), fn_name)
@@ -216,6 +223,9 @@ def _worker_call(args):
         return ('exc', {'type': type(exc).__name__, 'msg': str(exc)[:300], 'site': site,
                         'tb': ''.join(traceback.format_exception(type(exc), exc, exc.__traceback__))[-1500:]})
     finally:
+        # disarm first: a timer firing inside this block would raise CaseTimeout out of the worker
+        signal.signal(signal.SIGPROF, signal.SIG_IGN)
+        signal.signal(signal.SIGALRM, signal.SIG_IGN)
         signal.setitimer(signal.ITIMER_PROF, 0)
         signal.alarm(0)
 
